@@ -4,7 +4,8 @@ CONSTANT Export
 \* three lines, one of them long, at every position
 MCInputs == { [i \in 1..3 |-> IF i = p THEN c ELSE "short"] : p \in 1..3, c \in Classes \ {"short"} }
             \cup { <<c>> : c \in Classes }
-Consumers == {"generate", "include", "exclude", "suffix", "format", "renumber", "copyright", "rules"}
+\* "expand": no input line is long, but definition expansion makes one inside the pipeline
+Consumers == {"generate", "include", "exclude", "suffix", "format", "renumber", "copyright", "rules", "expand"}
 ExportCase == (Export /\ outcome # "running") =>
     \A cons \in Consumers, fnl \in BOOLEAN :
         PrintT(ToJson([consumer |-> cons, lines |-> input, fnl |-> fnl,
